@@ -87,6 +87,7 @@ def batch_oracle(ctx, lines, impl):
                                "the statement's value in reading order is %s (bound %d values, statement gives %d)" % (
                                    k + 1, fi[2][k] if k < len(fi[2]) else "nothing",
                                    fm[2][k] if k < len(fm[2]) else "nothing", len(fi[2]), len(fm[2])))
+    qcommon.text_level_premise(ctx, lines, impl, "P")
     ctx.cov["oracle_same_sql_value_lists_compared"] = same_sql
     ctx.cov["oracle_statements_scanned"] = checked
     ctx.cov["oracle_value_runs_checked"] = RUNS[0]
